@@ -23,6 +23,9 @@ def setup(tier):
     return [], None
 
 
+FULL = {"d": "d", "d/d": "d", "e": "d", "e/d": "d"}   # deep enough for replace + ancestor rename chains
+
+
 def plan(tier):
     q = tier == "quick"
     C = lambda **kw: fsops.Config(outside_ops=False, **kw)
@@ -32,11 +35,15 @@ def plan(tier):
             dict(cfgs=[rec], trees=fsops.small_trees(3), burst_len=2, depth=1, cap=60000),
             dict(cfgs=[rec], trees=fsops.small_trees(1), burst_len=1, depth=3, cap=20000),
             dict(cfgs=[flat, recb, full], trees=fsops.small_trees(2), burst_len=1, depth=1, cap=20000),
+            dict(cfgs=[rec], trees=[FULL], burst_len=1, depth=3, cap=20000),
+            dict(cfgs=[C(names="prefix")], trees=fsops.small_trees(2), burst_len=1, depth=2, cap=20000),
         ]
     return [
         dict(cfgs=[rec], trees=fsops.small_trees(4), burst_len=2, depth=2, cap=1_500_000),
         dict(cfgs=[rec], trees=fsops.small_trees(2), burst_len=3, depth=1, cap=600_000),
         dict(cfgs=[flat, recb, full], trees=fsops.small_trees(3), burst_len=2, depth=1, cap=400_000),
+        dict(cfgs=[rec], trees=[FULL], burst_len=1, depth=4, cap=300_000),
+        dict(cfgs=[C(names="prefix")], trees=fsops.small_trees(3), burst_len=2, depth=1, cap=400_000),
     ]
 
 
